@@ -45,10 +45,13 @@ Dev1(S) == S \cup UNION {UNION {{[t EXCEPT ![f] = v] : v \in Dims[f]} : f \in DO
 \* offset: the verifier's clock-skew offset (seconds); it makes the verifier stricter about exp (an assertion must outlive now + offset)
 \* and more lenient about iat - it never makes an EXPIRED assertion acceptable
 Cfgs == [subject : {"default", "delegation"}, maxAge : {3600, 10}, offset : {0, 10}]
-Groups == Cfgs \X {"iss", "sub"}
+\* prior: what the same verifier / the same provider did immediately before: nothing, or it accepted a fitting assertion of the OTHER client
+\* (the registered client that the observed assertion does not name as issuer).  Verification of an assertion is a function of the
+\* assertion, the keys the storage holds and the clock; verdicts and rules do not mention prior.
+Groups == (Cfgs \X {"iss", "sub"} \X {"none"}) \cup (Cfgs \X {"iss"} \X {"otherClient"})
 CasesOf(g) ==
-  LET d2 == Dev1(Dev1(Bases)) IN
-  {[a |-> a, cfg |-> g[1], probe |-> g[2]] : a \in (IF Tier = "quick" THEN d2 ELSE Dev1(d2))}
+  LET d1 == Dev1(Bases)  d2 == Dev1(d1) IN
+  {[a |-> a, cfg |-> g[1], probe |-> g[2], prior |-> g[3]] : a \in (IF Tier = "quick" THEN (IF g[3] = "none" THEN d2 ELSE d1) ELSE (IF g[3] = "none" THEN Dev1(d2) ELSE d2))}
 
 -----------------------------------------------------------------------------
 Other(c) == IF c = "A" THEN "B" ELSE "A"
